@@ -53,6 +53,19 @@ struct Orig<'a> {
     e: EngObs,
 }
 
+/// Every key the store lists must be readable through the store's own get/exists.
+fn listed_keys_readable(fmt: &'static str, store: &TensorStore, ctx: &mut CaseCtx) -> Result<(), Fail> {
+    for k in store.scan("") {
+        if !store.exists(&k) || store.get(&k).is_err() {
+            return ctx.fail(
+                format!("{fmt}:key-listed-but-not-readable"),
+                format!("[{fmt}] scan lists {k:?} but exists() = {} and get() = {:?}", store.exists(&k), store.get(&k).map(|_| ()).map_err(|e| e.to_string())),
+            );
+        }
+    }
+    Ok(())
+}
+
 fn compare_store(fmt: &'static str, mode: Mode, loaded: &TensorStore, o: &Orig, ctx: &mut CaseCtx) -> Result<(), Fail> {
     let n_r = observe_router(loaded.router(), o.probes, false);
     let mut cmp = Cmp { fmt, mode, ctx, rel_slab_diverged: false, bytes_lossy: false };
@@ -161,15 +174,23 @@ fn roundtrip(c: &RtCase, ctx: &mut CaseCtx) -> Result<(), Fail> {
                     cmp.router(&o.r, &n_r, &b.probes)?;
                 },
             }
+            // the overwritten store may have been created with a Bloom filter (get/exists consult it)
+            let new_target = || if c.sel & 8 != 0 { TensorStore::with_bloom_filter(2000, 0.01) } else { TensorStore::new() };
+            if c.sel & 8 != 0 {
+                ctx.label("restore_from_bytes into a store with a Bloom filter");
+            }
             if c.sel & 16 == 0 {
-                let fresh = TensorStore::new();
+                let fresh = new_target();
                 match fresh.restore_from_bytes(&bytes) {
                     Err(e) => ctx.fail("bytes-restore:load-failed", format!("restore_from_bytes failed: {e}"))?,
-                    Ok(()) => compare_store("bytes-restore", Mode::Exact, &fresh, &o, ctx)?,
+                    Ok(()) => {
+                        compare_store("bytes-restore", Mode::Exact, &fresh, &o, ctx)?;
+                        listed_keys_readable("bytes-restore", &fresh, ctx)?;
+                    },
                 }
             } else {
                 ctx.label("restore_from_bytes into a used store");
-                let used = TensorStore::new();
+                let used = new_target();
                 let _ = build_into(&c.pre, &used);
                 let slab_dim = used.router().embeddings.dimension();
                 for (n, _) in &c.pre_emb {
@@ -189,7 +210,10 @@ fn roundtrip(c: &RtCase, ctx: &mut CaseCtx) -> Result<(), Fail> {
                 }
                 match used.restore_from_bytes(&bytes) {
                     Err(e) => ctx.fail("bytes-restore-used:load-failed", format!("restore_from_bytes into a used store failed: {e}"))?,
-                    Ok(()) => compare_store("bytes-restore-used", Mode::Exact, &used, &o, ctx)?,
+                    Ok(()) => {
+                        compare_store("bytes-restore-used", Mode::Exact, &used, &o, ctx)?;
+                        listed_keys_readable("bytes-restore-used", &used, ctx)?;
+                    },
                 }
             }
         },
